@@ -121,10 +121,8 @@ def simulated_histories(res, n, seed):
         vlib.log(p.stdout[-2000:])
         raise vlib.ToolError("TLC simulation failed")
     hists = []
-    for line in p.stdout.split("\n"):
-        m = re.match(r'^<<"HIST", "(.*)">>\s*$', line)
-        if m:
-            hists.append(json.loads(m.group(1).replace('\\"', '"')))
+    for m in re.finditer(r'<<\s*"HIST",\s*"(.*?)"\s*>>', p.stdout, re.S):      # TLC wraps long tuples over several lines
+        hists.append(json.loads(m.group(1).replace('\\"', '"')))
     # keep maximal histories only
     keys = [json.dumps(h) for h in hists]
     uniq = []
